@@ -479,6 +479,44 @@ def step (st : St) (line : String) : St × String :=
         | none => ({ st with eng := e', specHist := [] }, both m "?")
       | none => (st, modelOnly "bad-op")
     | none => (st, modelOnly "bad-op")
+  | ["eng.go", d] =>
+    -- a depth-limited search on the ENGINE's own searcher (table, killers, history heuristic and the game history recorded by
+    -- the position command): model tie incl. node count
+    match d.toNat? with
+    | some d =>
+      let k := zkeysOf (st.engKeys.getD st.eng.newGames defaultKeys)
+      let G := chessGame st.mg k
+      match findBestMove G 100000 st.eng.board d .none st.eng.search with
+      | (some (score, mv), s) => ({ st with eng := { st.eng with search := s } }, both s!"{score} {optMvText mv} nodes={s.nodes} rep={s.rep.length}" "?")
+      | (none, s) => ({ st with eng := { st.eng with search := s } }, both "?" "?")
+    | none => (st, modelOnly "bad-op")
+  | ["eng.judge1", score] =>
+    -- C09 at the level of the search: the value a depth-1 search from a fresh table must report for the current position is
+    --   max over the legal moves m of (0 if the successor occurred at least twice in the game given with the last position
+    --   command, else minus its quiescence value)  — compared as won/lost beyond the window
+    match score.toInt? with
+    | some reported =>
+      let b := st.eng.board
+      let k := zkeysOf (st.engKeys.getD st.eng.newGames defaultKeys)
+      let G := chessGame st.mg k
+      let p := Spec.abs b
+      let ms := Spec.legalMoves p
+      if ms.isEmpty then (st, both "ok" "?")
+      else
+        let vals : List (Option Int) := ms.map fun m =>
+          let q := Spec.play p m
+          let cnt := (st.specHist.filter (· == posText q 0 0)).length
+          if cnt ≥ 2 then some 0
+          else match (b.makeMove m) with
+            | some b' => (Spec.Q G 3000 b').map (fun v => -v)
+            | none => none
+        if vals.any (·.isNone) then (st, both "ok" "?")
+        else
+          let best := (vals.filterMap id).foldl max (-Gen.CHECKMATE_SCORE)
+          let nrep := (ms.filter fun m => (st.specHist.filter (· == posText (Spec.play p m) 0 0)).length ≥ 2).length
+          if scoreClass best == scoreClass reported then (st, both "ok" "ok")
+          else (st, both "ok" s!"DEPTH-1-VALUE-WITH-REPETITIONS expected={best} reported={reported} successors-that-are-third-occurrences={nrep}")
+    | none => (st, modelOnly "bad-op")
   | ["eng.isdraw", b] =>
     match parseBoard b with
     | some b =>
